@@ -44,48 +44,85 @@ static Reference* mkref(Cell* c, const char* name, Vec2 at, double rot, double m
     return r;
 }
 static const Tag T1 = make_tag(1, 0), T2 = make_tag(2, 0), T3 = make_tag(4, 1), T4 = make_tag(7, 3), TL = make_tag(3, 2), TABSENT = make_tag(60, 61);
-static const int NVARIANT = 7;
 static const Tag TH1 = make_tag(40000, 65535), TH2 = make_tag(32768, 32767), TH3 = make_tag(65535, 32768);  // 16-bit values with the top bit set
-static const char* variant_name(int v) { static const char* n[] = {"full_mix", "polygons_only", "paths", "labels", "references", "properties_and_repetitions", "tags_above_32767"}; return n[v]; }
+// content variants: 0..6 hand-made (one element kind each, a full mix, high tags); 7.. = every combination of >= 2 of the five
+// element groups {polygons, paths, labels, references A (with a dangling reference), references B (lattices + properties)}
+struct Feat { bool poly, paths, labels, refs, absent, leaf_direct, island_ref, mid_rep1, props, high; };
+static std::vector<int> g_masks;  // element-group masks of the variants >= 7
+static void init_masks() { for (int m = 1; m < 32; m++) if (__builtin_popcount(m) >= 2) g_masks.push_back(m); }
+static const int NBASE = 7;
+static int nvariant_all() { return NBASE + (int)g_masks.size(); }
+static Feat feat_of(int v) {
+    Feat f = {};
+    switch (v) {
+        case 0: f.poly = f.paths = f.labels = f.refs = f.absent = f.leaf_direct = true; break;
+        case 1: f.poly = true; break;
+        case 2: f.paths = true; break;
+        case 3: f.labels = true; break;
+        case 4: f.refs = f.absent = true; break;
+        case 5: f.refs = f.leaf_direct = f.island_ref = f.mid_rep1 = f.props = true; break;
+        case 6: f.high = true; break;
+        default: {
+            int m = g_masks[v - NBASE];
+            f.poly = m & 1; f.paths = m & 2; f.labels = m & 4;
+            if (m & 8) f.refs = f.absent = true;
+            if (m & 16) f.refs = f.leaf_direct = f.island_ref = f.mid_rep1 = f.props = true;
+        }
+    }
+    return f;
+}
+static std::string variant_name(int v) {
+    static const char* n[] = {"full_mix", "polygons_only", "paths", "labels", "references", "properties_and_repetitions", "tags_above_32767"};
+    if (v < NBASE) return n[v];
+    int m = g_masks[v - NBASE];
+    std::string s = "mix";
+    const char* g[] = {"+polygons", "+paths", "+labels", "+refsA", "+refsB"};
+    for (int b = 0; b < 5; b++) if (m >> b & 1) s += g[b];
+    return s;
+}
 struct Units { double unit, precision; };
 static const Units UNITS[] = {{1e-6, 1e-9}, {1e-3, 1e-6}, {1e-6, 5e-10}};
-static Library build_library(int variant, int ui) {
+static Library build_library(int variant, int ui, int perm) {
     Library lib = {};
     lib.init("C17LIB", UNITS[ui].unit, UNITS[ui].precision);
-    auto cell = [&](const char* n) { Cell* c = (Cell*)allocate_clear(sizeof(Cell)); c->init(n); lib.cell_array.append(c); return c; };
-    Cell* leaf = cell("LEAF");
-    Cell* mid = cell("MID");
-    Cell* top = cell("TOPCELL");
-    Cell* island = cell("ISLAND");
-    bool all = variant == 0;
+    Cell* cells[4];
+    const char* names[4] = {"LEAF", "MID", "TOPCELL", "ISLAND"};
+    for (int i = 0; i < 4; i++) { cells[i] = (Cell*)allocate_clear(sizeof(Cell)); cells[i]->init(names[i]); }
+    Cell *leaf = cells[0], *mid = cells[1], *top = cells[2], *island = cells[3];
+    {   // order of the structures in the file: the perm-th permutation of the four cells (0 = as listed: referenced before referencing)
+        int idx[4] = {0, 1, 2, 3};
+        for (int k = 0; k < perm; k++) std::next_permutation(idx, idx + 4);
+        for (int i = 0; i < 4; i++) lib.cell_array.append(cells[idx[i]]);
+    }
+    Feat f = feat_of(variant);
     leaf->polygon_array.append(mkpoly({{0, 0}, {1, 0}, {1, 1}, {0, 1}}, T1));
-    if (all || variant == 1) {
+    if (f.poly) {
         leaf->polygon_array.append(mkpoly({{0, 0}, {3, 0.5}, {1.5, 2.25}}, T2));
         mid->polygon_array.append(mkpoly({{-1, -1}, {2, -1}, {2, 0}, {0.5, 0}, {0.5, 2}, {-1, 2}}, T1));
         island->polygon_array.append(mkpoly({{10, 10}, {12, 10}, {11, 13}}, T4));
         top->polygon_array.append(mkpoly({{0, 0}, {1, 0}, {0, 1}}, T2));
         top->polygon_array.append(mkpoly({{5, 5}, {6, 5}, {5, 6}}, T1));
     }
-    if (all || variant == 2) {
+    if (f.paths) {
         mid->flexpath_array.append(mkpath(T3, EndType::Flush, true, Vec2{0, 0}));
         top->flexpath_array.append(mkpath(T1, EndType::Extended, false, Vec2{0.25, 0.75}));
         top->flexpath_array.append(mkpath(T3, EndType::HalfWidth, true, Vec2{0, 0}));
         island->flexpath_array.append(mkpath(T4, EndType::Round, true, Vec2{0, 0}));
         top->polygon_array.append(mkpoly({{0, 0}, {1, 0}, {0, 1}}, T3));
     }
-    if (all || variant == 3) {
+    if (f.labels) {
         leaf->label_array.append(mklabel("leaf", TL, Vec2{0.5, 0.5}, 0, 1, false, Anchor::O));
         top->label_array.append(mklabel("top!", TL, Vec2{1, 2}, 0.5, 2.5, true, Anchor::NE));
         top->label_array.append(mklabel("odd", T1, Vec2{-1, -2}, M_PI / 2, 1, false, Anchor::SW));
     }
-    if (all || variant == 4 || variant == 5) {
-        mid->reference_array.append(mkref(leaf, NULL, Vec2{3, 1}, M_PI / 2, 1, false, variant == 5 ? 1 : 0));
+    if (f.refs) {
+        mid->reference_array.append(mkref(leaf, NULL, Vec2{3, 1}, M_PI / 2, 1, false, f.mid_rep1 ? 1 : 0));
         top->reference_array.append(mkref(mid, NULL, Vec2{10, 5}, 0.3, 2, true, 0));
-        if (variant != 4) top->reference_array.append(mkref(leaf, NULL, Vec2{-4, 0}, 0, 1, false, 1));  // variant 4: LEAF reachable from TOPCELL only through MID
-        if (variant != 5) top->reference_array.append(mkref(NULL, "ABSENT_CELL", Vec2{1, 1}, 0, 1, false, 0));
-        if (variant == 5) island->reference_array.append(mkref(leaf, NULL, Vec2{0, 0}, 0, 0.5, false, 2));
+        if (f.leaf_direct) top->reference_array.append(mkref(leaf, NULL, Vec2{-4, 0}, 0, 1, false, 1));  // otherwise LEAF is reachable from TOPCELL only through MID
+        if (f.absent) top->reference_array.append(mkref(NULL, "ABSENT_CELL", Vec2{1, 1}, 0, 1, false, 0));
+        if (f.island_ref) island->reference_array.append(mkref(leaf, NULL, Vec2{0, 0}, 0, 0.5, false, 2));
     }
-    if (variant == 6) {  // layer / datatype / texttype values that do not fit a signed 16-bit integer
+    if (f.high) {  // layer / datatype / texttype values that do not fit a signed 16-bit integer
         leaf->polygon_array.append(mkpoly({{0, 0}, {3, 0.5}, {1.5, 2.25}}, TH1));
         mid->polygon_array.append(mkpoly({{-1, -1}, {2, -1}, {2, 0}}, TH2));
         top->polygon_array.append(mkpoly({{0, 0}, {1, 0}, {0, 1}}, T2));
@@ -95,7 +132,7 @@ static Library build_library(int variant, int ui) {
         mid->reference_array.append(mkref(leaf, NULL, Vec2{3, 1}, 0, 1, false, 0));
         top->reference_array.append(mkref(mid, NULL, Vec2{10, 5}, 0, 1, false, 0));
     }
-    if (variant == 5) {
+    if (f.props) {
         Polygon* p = mkpoly({{0, 0}, {2, 0}, {2, 1}, {0, 1}}, T2);
         set_gds_property(p->properties, 2, "ab");
         set_gds_property(p->properties, 3, "abc");
@@ -116,12 +153,12 @@ static Library build_library(int variant, int ui) {
 
 // ------------------------------------------------------------------ helpers
 static bool close_rel(double a, double b, double rel = 1e-12) { return fabs(a - b) <= rel * std::max(1.0, std::max(fabs(a), fabs(b))); }
-struct Ctx { int variant, ui; std::string what; };
-static std::string ctx_json(const Ctx& c) { return jobj({{"library", jstr(variant_name(c.variant))}, {"unit", jnum(UNITS[c.ui].unit)}, {"precision", jnum(UNITS[c.ui].precision)}, {"case", jstr(c.what)}}); }
+struct Ctx { std::string name, rp; double unit, precision; int perm; std::string what; };   // rp = replay prefix identifying the file
+static std::string ctx_json(const Ctx& c) { return jobj({{"library", jstr(c.name)}, {"unit", jnum(c.unit)}, {"precision", jnum(c.precision)}, {"cell_order", jint(c.perm)}, {"case", jstr(c.what)}}); }
 static void viol(const Ctx& c, const std::string& sub, const std::string& cls, const JFields& tags, const std::string& detail, const std::string& replay_extra) {
-    JFields t = {{"library", jstr(variant_name(c.variant))}};
+    JFields t = {{"library", jstr(c.name)}};
     for (auto& x : tags) t.push_back(x);
-    R->violation(sub, cls, t, ctx_json(c), detail, fmt("variant=%d ui=%d ", c.variant, c.ui) + replay_extra);
+    R->violation(sub, cls, t, ctx_json(c), detail, c.rp + " " + replay_extra);
 }
 static std::string tagset_str(const std::vector<Tag>& v) {
     std::string s;
@@ -201,16 +238,13 @@ static std::string compare_scaled(const Library& a, const Library& b, double f) 
     return "";
 }
 
-static void run_library(int variant, int ui) {
-    Ctx cx{variant, ui, ""};
-    std::string path = R->scratch + fmt("/c17.%d.gds", (int)getpid());
-    Library src = build_library(variant, ui);
-    tm t = FIXED_TM;
-    if (src.write_gds(path.c_str(), 199, &t) != ErrorCode::NoError) R->internal_error("corpus write failed");
+// everything the property says about ONE file at `path` (the file is rewritten in place by part g)
+struct Expect { double unit, precision, rel; tm stamp; bool may_miss_reference; };
+static void run_file(Ctx& cx, const std::string& path, const Expect& ex) {
+    const bool deep = R->thorough();
     ErrorCode ec = ErrorCode::NoError;
     Library full = read_gds(path.c_str(), 0, 1e-2, NULL, &ec);
-    bool expect_missing = variant == 0 || variant == 4;
-    if ((int)ec >= (int)ErrorCode::ChecksumError || (ec != ErrorCode::NoError && !(expect_missing && ec == ErrorCode::MissingReference))) R->internal_error(fmt("full load of corpus file failed with code %d", (int)ec));
+    if ((int)ec >= (int)ErrorCode::ChecksumError || (ec != ErrorCode::NoError && !(ex.may_miss_reference && ec == ErrorCode::MissingReference))) R->internal_error(fmt("full load of corpus file %s failed with code %d", cx.name.c_str(), (int)ec));
 
     // ---- (a) gds_info
     {
@@ -248,10 +282,10 @@ static void run_library(int variant, int ui) {
         double u = 0, p = 0;
         ErrorCode ue = gds_units(path.c_str(), u, p);
         if (ue != ErrorCode::NoError || u != full.unit || p != full.precision) viol(cx, "units", "mismatch", {}, fmt("gds_units %g/%g (code %d), full load %g/%g", u, p, (int)ue, full.unit, full.precision), "part=units");
-        if (!close_rel(u, UNITS[ui].unit, 1e-14) || !close_rel(p, UNITS[ui].precision, 1e-14)) viol(cx, "units", "not-as-saved", {}, fmt("gds_units %g/%g, saved %g/%g", u, p, UNITS[ui].unit, UNITS[ui].precision), "part=units");
+        if (!close_rel(u, ex.unit, ex.rel) || !close_rel(p, ex.precision, ex.rel)) viol(cx, "units", "not-as-saved", {}, fmt("gds_units %g/%g, saved %g/%g", u, p, ex.unit, ex.precision), "part=units");
         ErrorCode te = ErrorCode::NoError;
         tm got = gds_timestamp(path.c_str(), NULL, &te);
-        if (te != ErrorCode::NoError || got.tm_year != FIXED_TM.tm_year || got.tm_mon != FIXED_TM.tm_mon || got.tm_mday != FIXED_TM.tm_mday || got.tm_hour != FIXED_TM.tm_hour || got.tm_min != FIXED_TM.tm_min || got.tm_sec != FIXED_TM.tm_sec)
+        if (te != ErrorCode::NoError || got.tm_year != ex.stamp.tm_year || got.tm_mon != ex.stamp.tm_mon || got.tm_mday != ex.stamp.tm_mday || got.tm_hour != ex.stamp.tm_hour || got.tm_min != ex.stamp.tm_min || got.tm_sec != ex.stamp.tm_sec)
             viol(cx, "timestamp", "mismatch", {}, "gds_timestamp differs from the timestamp the file was written with", "part=units");
         R->count("cases");
     }
@@ -286,11 +320,12 @@ static void run_library(int variant, int ui) {
     }
     // ---- (e) target units
     {
-        const double targets[] = {UNITS[ui].unit, 1e-6, 1e-9, 2e-6, 1e-3};
+        std::vector<double> targets = {full.unit, 1e-6, 1e-9, 2e-6, 1e-3};
+        if (deep) { targets.push_back(5e-7); targets.push_back(1e-2); targets.push_back(2.5e-10); }
         // native load with the default tolerance (tolerance <= 0 => precision / unit), for the tolerance comparison
         ErrorCode de = ErrorCode::NoError;
         Library full0 = read_gds(path.c_str(), 0, 0, NULL, &de);
-        for (int pass = 0; pass < 2 * (int)(sizeof targets / sizeof targets[0]); pass++) {
+        for (int pass = 0; pass < 2 * (int)targets.size(); pass++) {
             double tu = targets[pass / 2];
             bool default_tol = pass % 2;
             ErrorCode ue = ErrorCode::NoError;
@@ -327,10 +362,15 @@ static void run_library(int variant, int ui) {
             }
         }
         uint64_t ncell = full.cell_array.count;
+        // order in which the chosen raw cells are written to the new file: -1 = iteration order of the map returned by
+        // get_dependencies, 0.. = the k-th permutation of the closure listed in source-file order (quick: source order, reversed
+        // source order, and "last structure of the source first"; thorough: every permutation)
+        auto norders = [&](size_t k) { int f = 1; for (size_t i = 2; i <= k; i++) f *= (int)i; return f; };
         for (uint32_t mask = 1; mask < (1u << ncell); mask++)
-            for (int via = 0; via < 2; via++) {
-                cx.what = fmt("raw cells subset mask %u via %s", mask, via ? "GdsWriter::write_rawcell" : "Library::write_gds");
-                std::string rp = fmt("part=raw mask=%u via=%d", mask, via);
+            for (int via = 0; via < 2; via++)
+              for (int order = -1; order < 24; order++) {
+                cx.what = fmt("raw cells subset mask %u via %s, write order %d", mask, via ? "GdsWriter::write_rawcell" : "Library::write_gds", order);
+                std::string rp = fmt("part=raw mask=%u via=%d order=%d", mask, via, order);
                 ErrorCode re = ErrorCode::NoError;
                 Map<RawCell*> raws = read_rawcells(path.c_str(), &re);
                 if ((int)re >= (int)ErrorCode::ChecksumError || raws.count != ncell) { viol(cx, "raw", "read_rawcells", {}, fmt("read_rawcells returned %llu cells, code %d", (unsigned long long)raws.count, (int)re), rp); continue; }
@@ -349,21 +389,45 @@ static void run_library(int variant, int ui) {
                 std::set<std::string> got;
                 for (MapItem<RawCell*>* it = chosen.next(NULL); it; it = chosen.next(it)) got.insert(it->key);
                 if (got != want) viol(cx, "raw", "dependencies", {}, fmt("RawCell::get_dependencies closure has %zu cells, reference graph of the full load gives %zu", got.size(), want.size()), rp);
+                // the sequence in which the closure is written
+                std::vector<RawCell*> seq;
+                bool skip = false;
+                if (order < 0) { for (MapItem<RawCell*>* it = chosen.next(NULL); it; it = chosen.next(it)) seq.push_back(it->value); }
+                else {
+                    std::vector<int> idx;  // members of the closure in source-file order
+                    for (uint64_t i = 0; i < ncell; i++) if (chosen.get(full.cell_array[i]->name)) idx.push_back((int)i);
+                    int nperm = norders(idx.size());
+                    int k = order;
+                    if (!deep) {  // quick: 0 = source order, 1 = reversed, 2 = last of the source first, rest as in the source
+                        if (order > 2 || (order > 0 && idx.size() < 2) || (order == 2 && idx.size() < 3)) skip = true;
+                        else if (order == 1) std::reverse(idx.begin(), idx.end());
+                        else if (order == 2) std::rotate(idx.begin(), idx.end() - 1, idx.end());
+                    } else if (k >= nperm) skip = true;
+                    else for (int q = 0; q < k; q++) std::next_permutation(idx.begin(), idx.end());
+                    if (!skip) for (int i : idx) seq.push_back(chosen.get(full.cell_array[i]->name));
+                }
+                if (skip) {
+                    chosen.clear();
+                    for (MapItem<RawCell*>* it = raws.next(NULL); it; it = raws.next(it)) { it->value->clear(); free_allocation(it->value); }
+                    raws.clear();
+                    continue;
+                }
                 // write the closure to a new file
                 std::string out = R->scratch + fmt("/c17raw.%d.gds", (int)getpid());
                 tm t2 = FIXED_TM;
                 if (via == 0) {
                     Library rl = {};
                     rl.init("RAWLIB", full.unit, full.precision);
-                    for (MapItem<RawCell*>* it = chosen.next(NULL); it; it = chosen.next(it)) rl.rawcell_array.append(it->value);
+                    for (RawCell* rc : seq) rl.rawcell_array.append(rc);
                     if (rl.write_gds(out.c_str(), 0, &t2) != ErrorCode::NoError) viol(cx, "raw", "write", {}, "write_gds of raw cells failed", rp);
                     rl.clear();
                 } else {
                     ErrorCode we = ErrorCode::NoError;
                     GdsWriter wr = gdswriter_init(out.c_str(), "RAWLIB", full.unit, full.precision, 0, &t2, &we);
-                    for (MapItem<RawCell*>* it = chosen.next(NULL); it; it = chosen.next(it)) if (wr.write_rawcell(*it->value) != ErrorCode::NoError) viol(cx, "raw", "write", {}, "write_rawcell failed", rp);
+                    for (RawCell* rc : seq) if (wr.write_rawcell(*rc) != ErrorCode::NoError) viol(cx, "raw", "write", {}, "write_rawcell failed", rp);
                     wr.close();
                 }
+                if (order >= 0) R->count("raw_copies_in_explicit_order");
                 ErrorCode le = ErrorCode::NoError;
                 Library back = read_gds(out.c_str(), 0, 1e-2, NULL, &le);
                 if ((int)le >= (int)ErrorCode::ChecksumError) viol(cx, "raw", "reload", {}, fmt("file of copied raw cells does not load (code %d)", (int)le), rp);
@@ -391,7 +455,9 @@ static void run_library(int variant, int ui) {
     {
         std::string before;
         { FILE* f = fopen(path.c_str(), "rb"); char buf[65536]; size_t r; while ((r = fread(buf, 1, sizeof buf, f)) > 0) before.append(buf, r); fclose(f); }
-        struct TS { int y, mo, d, h, mi, s; } tss[] = {{70, 0, 1, 0, 0, 0}, {138, 0, 19, 3, 14, 7}};
+        struct TS { int y, mo, d, h, mi, s; };
+        std::vector<TS> tss = {{70, 0, 1, 0, 0, 0}, {138, 0, 19, 3, 14, 7}};
+        if (deep) { tss.push_back({0, 0, 1, 0, 0, 0}); tss.push_back({199, 11, 31, 23, 59, 59}); tss.push_back({100, 1, 29, 12, 0, 0}); tss.push_back({138, 0, 19, 3, 14, 7}); tss.push_back({138, 0, 19, 3, 14, 8}); }
         for (auto& ts : tss) {
             cx.what = fmt("gds_timestamp(set %04d-%02d-%02d %02d:%02d:%02d)", ts.y + 1900, ts.mo + 1, ts.d, ts.h, ts.mi, ts.s);
             tm nt = {};
@@ -434,6 +500,17 @@ static void run_library(int variant, int ui) {
             R->count("nontrivial");
         }
     }
+    full.free_all();
+}
+
+static void run_library(int variant, int ui, int perm) {
+    Ctx cx{variant_name(variant), fmt("variant=%d ui=%d perm=%d", variant, ui, perm), UNITS[ui].unit, UNITS[ui].precision, perm, ""};
+    std::string path = R->scratch + fmt("/c17.%d.gds", (int)getpid());
+    Library src = build_library(variant, ui, perm);
+    tm t = FIXED_TM;
+    if (src.write_gds(path.c_str(), 199, &t) != ErrorCode::NoError) R->internal_error("corpus write failed");
+    Expect ex = {UNITS[ui].unit, UNITS[ui].precision, 1e-14, FIXED_TM, feat_of(variant).absent};
+    run_file(cx, path, ex);
     // ---- (h) rewriting timestamps of a file whose cells carry OTHER stamps than its library record
     //      (raw cells copied into a library saved at another time keep their own BGNSTR stamps)
     {
@@ -481,28 +558,76 @@ static void run_library(int variant, int ui) {
         }
         unlink(out.c_str());
     }
-    full.free_all();
     src.free_all();
     unlink(path.c_str());
-    R->outcome("c17", fmt("%s %d", variant_name(variant), ui));
+    R->outcome("c17", fmt("%s %d", variant_name(variant).c_str(), ui));
+}
+
+// ---- files produced by the independent specification-derived encoder (codec/c18_files.py: optional header records, ELFLAGS/PLEX,
+//      BOX, multi-record XY, forward references, short names, minimal file) go through the same comparisons
+static std::vector<std::string> g_indep;
+static void load_indep_index() {
+    const char* vd = getenv("VERIF_DIR");
+    std::string dir = R->scratch + "/indep";
+    std::string cmd = std::string("python3 '") + (vd ? vd : "/verif") + "/codec/c18_files.py' '" + dir + "' >/dev/null 2>&1";
+    if (system(cmd.c_str()) != 0) { R->internal_error("independent file generator failed: " + cmd); return; }
+    FILE* idx = fopen((dir + "/index.txt").c_str(), "r");
+    if (!idx) { R->internal_error("no index of independently encoded files"); return; }
+    char name[256], kind[16]; int sgn;
+    while (fscanf(idx, "%255s %15s %d", name, kind, &sgn) == 3) if (!strcmp(kind, "gds")) g_indep.push_back(name);
+    fclose(idx);
+    if (g_indep.size() < 6) R->internal_error("fewer than six independently encoded GDSII files");
+}
+static void run_indep(int k) {
+    const std::string& name = g_indep[k];
+    Ctx cx{name, "indep=" + name, 1e-6, 1e-9, 0, ""};
+    std::string srcp = R->scratch + "/indep/" + name, path = R->scratch + fmt("/c17i.%d.gds", (int)getpid());
+    std::string bytes;
+    { FILE* f = fopen(srcp.c_str(), "rb"); if (!f) { R->internal_error("cannot open " + srcp); return; } char buf[65536]; size_t r; while ((r = fread(buf, 1, sizeof buf, f)) > 0) bytes.append(buf, r); fclose(f); }
+    { FILE* f = fopen(path.c_str(), "wb"); fwrite(bytes.data(), 1, bytes.size(), f); fclose(f); }
+    tm st = {};
+    st.tm_year = 101; st.tm_mon = 1; st.tm_mday = 3; st.tm_hour = 4; st.tm_min = 5; st.tm_sec = 6;  // STAMP of c18_files.py
+    Expect ex = {1e-6, 1e-9, 1e-12, st, true};   // UNITS record of the encoder: 1e-3 user units per database unit, 1e-9 m per database unit
+    run_file(cx, path, ex);
+    unlink(path.c_str());
+    R->count("independent_files");
+    R->outcome("c17", "independent " + name);
 }
 
 int main(int argc, char** argv) {
     Run run("C17", argc, argv);
     R = &run;
     error_logger = NULL;
+    init_masks();
     memset(&FIXED_TM, 0, sizeof FIXED_TM);
     FIXED_TM.tm_year = 101; FIXED_TM.tm_mon = 1; FIXED_TM.tm_mday = 3; FIXED_TM.tm_hour = 4; FIXED_TM.tm_min = 5; FIXED_TM.tm_sec = 6;
+    load_indep_index();
     if (run.replaying()) {
-        run_library(atoi(run.rarg("variant").c_str()), atoi(run.rarg("ui").c_str()));
+        if (!run.rarg("indep").empty()) {
+            for (size_t k = 0; k < g_indep.size(); k++) if (g_indep[k] == run.rarg("indep")) run_indep((int)k);
+        } else run_library(atoi(run.rarg("variant").c_str()), atoi(run.rarg("ui").c_str()), atoi(run.rarg("perm").c_str()));
         return run.finish();
     }
-    int nu = 3;
-    int64_t n = NVARIANT * nu;
-    auto body = [&](int64_t i) { run_library((int)(i / nu), (int)(i % nu)); };
-    auto describe = [&](int64_t i) { return jobj({{"library", jstr(variant_name((int)(i / nu)))}, {"unit", jnum(UNITS[i % nu].unit)}}); };
-    bool ok = parallel_for(run, n, body, describe, [&](int64_t i) { return fmt("variant=%d ui=%d", (int)(i / nu), (int)(i % nu)); }, PFOptions{120, "c17.crash", true});
-    run.sample("c17", jobj({{"library", jstr("full_mix, unit 1e-6/1e-9")}, {"sub-cases", jstr("gds_info; gds_units; gds_timestamp; read_gds with each of 2^k+ tag filter sets; 5 target units; every non-empty subset of the 4 cells as raw cells via Library::write_gds and GdsWriter::write_rawcell; 2 timestamp rewrites")}}));
-    run.bound("c17", fmt("%d content variants x %d unit pairs; per file: all tag subsets (+absent tag), 5 target units, all raw-cell subsets x 2 writers, 2 timestamps", NVARIANT, nu), ok, n);
+    // quick: the 7 hand-made variants + 5 mixes, structure orders {as listed, reversed, one mixed}; thorough: all 33 variants x all 24 orders
+    std::vector<int> variants, perms;
+    if (run.thorough()) { for (int v = 0; v < nvariant_all(); v++) variants.push_back(v); for (int q = 0; q < 24; q++) perms.push_back(q); }
+    else {
+        for (int v = 0; v < NBASE; v++) variants.push_back(v);
+        for (int v = NBASE; v < nvariant_all(); v++) { int m = g_masks[v - NBASE]; if (m == 17 || m == 6 || m == 12 || m == 31 || m == 26) variants.push_back(v); }
+        perms = {0, 23, 9};
+    }
+    const int nu = 3;
+    struct Job { int variant, ui, perm, indep; };
+    std::vector<Job> jobs;
+    for (size_t k = 0; k < g_indep.size(); k++) jobs.push_back({0, 0, 0, (int)k});
+    for (int q : perms) for (int v : variants) for (int u = 0; u < nu; u++) jobs.push_back({v, u, q, -1});
+    int64_t n = (int64_t)jobs.size();
+    auto body = [&](int64_t i) { const Job& j = jobs[i]; if (j.indep >= 0) run_indep(j.indep); else run_library(j.variant, j.ui, j.perm); };
+    auto describe = [&](int64_t i) { const Job& j = jobs[i]; return j.indep >= 0 ? jobj({{"library", jstr(g_indep[j.indep])}}) : jobj({{"library", jstr(variant_name(j.variant))}, {"unit", jnum(UNITS[j.ui].unit)}, {"cell_order", jint(j.perm)}}); };
+    auto replay_of = [&](int64_t i) { const Job& j = jobs[i]; return j.indep >= 0 ? "indep=" + g_indep[j.indep] : fmt("variant=%d ui=%d perm=%d", j.variant, j.ui, j.perm); };
+    bool ok = parallel_for(run, n, body, describe, replay_of, PFOptions{300, "c17.crash", true});
+    run.sample("c17", jobj({{"library", jstr("full_mix, unit 1e-6/1e-9")}, {"sub-cases", jstr("gds_info; gds_units; gds_timestamp; read_gds with each of 2^k+ tag filter sets; target units x 2 tolerances; every non-empty subset of the cells as raw cells via Library::write_gds and GdsWriter::write_rawcell in several write orders; timestamp rewrites")}}));
+    run.bound("c17", fmt("%zu independently encoded files + %zu content variants x %d unit pairs x %zu structure orders; per file: all tag subsets (+absent tag), %s target units x 2 tolerances, all raw-cell subsets x 2 writers x %s, %s timestamps",
+                         g_indep.size(), variants.size(), nu, perms.size(), run.thorough() ? "8" : "5", run.thorough() ? "every write order of the closure (+ map order)" : "4 write orders", run.thorough() ? "7" : "2"), ok, n);
     return run.finish();
 }
